@@ -752,7 +752,7 @@ where
     }
     let method = d.u(0, 7);
     // (derived choice, no tape word: three cases in eight use one of the further provided methods / a clone)
-    let method = match d.derived(0x17e2, 8) {
+    let method = match d.derived(0x17e2, 9) {
         0..=4 => method,
         m => m + 3,
     };
@@ -843,6 +843,20 @@ where
             let exp: Vec<T> = tail.iter().step_by(step).cloned().collect();
             if v != exp {
                 return report("step_by", format!("{} items starting {:?}", v.len(), v.first()), format!("{} items starting {:?}", exp.len(), exp.first()));
+            }
+        }
+        11 => {
+            // `nth` far beyond the end (an index that leaves 31 / 32 / 63 bits, or a multiple of the first run
+            // length that does): `None`, and every item is consumed
+            let huge = [usize::MAX, usize::MAX / 2 + 1, 1usize << 31, 1usize << 32, (1usize << 31).wrapping_mul(run), (1usize << 32).wrapping_mul(run).wrapping_sub(1), (usize::MAX / run.max(1)).wrapping_mul(run)];
+            let j = huge[d.derived(0x17e6, huge.len() as u32) as usize].max(tail.len());
+            let x = it.nth(j);
+            if x.is_some() {
+                return report("nth_huge", format!("{:?} for nth({})", x, j), "None".into());
+            }
+            let y = it.next();
+            if y.is_some() {
+                return report("next_after_nth_huge", format!("{:?} after nth({}) returned None", y, j), "None".into());
             }
         }
         _ => {
